@@ -69,6 +69,7 @@ MODULES = [
     ("require-bare", "(require vfc15mac)\n(setv v (vfc15mac.m1) w (vfc15mac.m2 1))\n"),
     ("require-as", "(require vfc15mac :as P)\n(setv v (P.m1) w (P.bang!))\n"),
     ("require-names", "(require vfc15mac [m1 m2 :as z])\n(setv v (m1) w (z 5))\n"),
+    ("require-dup-alias", "(require vfc15mac [m1 :as one  m2  m1 :as uno  m2 :as deux])\n(setv v [(one) (uno) (m2 1) (deux 2)])\n"),
     ("require-star", "(require vfc15mac *)\n(setv v [(m1) (m2 0) (bang!)])\n"),
     ("require-star-export", "(require vfc15exp *)\n(setv v [(m2) (m3)])\n"),
     ("require-private", "(require vfc15mac [_private])\n(setv v (_private))\n"),
@@ -220,7 +221,7 @@ def spec(tier, seed):
         "grade": "R/D: paths from folded selectors; import histories are concrete runs of the real importlib machinery in a temporary directory",
         "functions_encoded": ["hy.importer._could_be_hy_src", "hy.importer._hy_source_to_code (via importlib: source import then cached import)",
                               "hy.core.result_macros.compile_require / defmacro / defreader (the run-time code they emit)", "hy.macros.require, require_vals, enable_readers"],
-        "bounds": "every path of length <= %d over %r plus %d hand-written paths; %d module sources (plain values, own macros, require bare / :as / names with aliases / * / with export list / "
+        "bounds": "every path of length <= %d over %r plus %d hand-written paths; %d module sources (plain values, own macros, require bare / :as / names with aliases (also one macro under two aliases) / * / with export list / "
                   "private / :readers / local / in a class, macro using a required macro, shebang + docstring, let/comprehension) each imported from source and again from the .pyc with a fresh "
                   "module object, and executed from marshalled code in a fresh module" % (maxlen, PALPH, len(cands), len(MODULES)),
         "outside": "NOT APPLICABLE part: importlib's pyc validation (mtime/size/hash, invalidation on source change) and the OS file layer are C/OS code outside any encoding here; modules with "
